@@ -211,6 +211,10 @@ func WorkerBatch(t *testing.T) {
 		index := from + i*stride
 		runSeed := SubSeed(seed, prof.Name, index)
 		emit(outLine{Type: "start", Info: map[string]any{"index": index, "run_seed": runSeed}})
+		if raceBuild {
+			// marker for attributing race detector reports (stderr) to runs
+			fmt.Fprintf(os.Stderr, "LSSIM-RUN profile=%s seed=%d index=%d run_seed=%d\n", prof.Name, seed, index, runSeed)
+		}
 		r := RunOne(t, prof, NewTape(runSeed), runSeed, index)
 		l := outLine{Type: "run", Run: r}
 		if samples > 0 && r.Nontrivial && len(r.Violations) == 0 {
@@ -281,6 +285,9 @@ func WorkerReplay(t *testing.T) {
 	tape := NewReplayTape(rf.Tape, true)
 	if rf.BySeed {
 		tape = NewTape(rf.RunSeed)
+	}
+	if raceBuild {
+		fmt.Fprintf(os.Stderr, "LSSIM-RUN profile=%s seed=%d index=%d run_seed=%d\n", prof.Name, rf.Seed, rf.Index, rf.RunSeed)
 	}
 	r := RunOne(t, prof, tape, rf.RunSeed, rf.Index)
 	v := firstViolation(r)
